@@ -69,6 +69,11 @@ def ite(ip, c, a, b):
             pass
     if isinstance(a, tuple) and isinstance(b, tuple) and len(a) == len(b):
         return tuple(ite(ip, c, x, y) for x, y in zip(a, b))
+    # a literal tuple merged with a symbolic sequence: both are sequences of that kind
+    if isinstance(a, tuple) and isinstance(b, SV) and b.kind[0] == 'seq':
+        a = lift(a, b.kind)
+    elif isinstance(b, tuple) and isinstance(a, SV) and a.kind[0] == 'seq':
+        b = lift(b, a.kind)
     ka, kb = kind_of(a), kind_of(b)
     if ka is None or kb is None:
         raise Unsupported("cannot merge %r / %r" % (a, b))
